@@ -170,6 +170,19 @@ MUST = {
     'wall0': 'Start DrOp DrEnd FuWaitLd FuDecRef FuDealloc Terminated',
     'wallts': COMMON + ' GateUp DrRunQ FuIncRef FuThenLd FuThenHeadLd FuThenPush FuThenRecheck FuChainTake FuWaDec '
                        'FuTscInc FuTscDec PoolReturn FuReadyLd',
+    # task-set overloads of when_all / when_any (C19): the result's own slot in the set's counter (FuTscInc / FuTscDec)
+    'wallts6': COMMON + ' GateUp DrRunQ FuIncRef FuThenLd FuThenHeadLd FuThenPush FuThenRecheck FuChainTake FuWaDec '
+                        'FuTscInc FuTscDec PoolReturn FuReadyLd',
+    'walltst': COMMON + ' GateUp DrRunQ FuIncRef FuThenLd FuThenHeadLd FuThenPush FuThenRecheck FuChainTake FuWaDec '
+                        'FuTscInc FuTscDec PoolReturn FuReadyLd',
+    'walltst6': COMMON + ' GateUp DrRunQ FuIncRef FuThenLd FuThenHeadLd FuThenPush FuThenRecheck FuChainTake FuWaDec '
+                         'FuTscInc FuTscDec PoolReturn FuReadyLd FuWaCountLd',
+    'wanyts': COMMON + ' GateUp DrRunQ FuIncRef FuThenLd FuThenHeadLd FuThenPush FuThenRecheck FuChainTake FuWyCas '
+                       'FuTscInc FuTscDec PoolReturn FuReadyLd',
+    'walltsin': COMMON + ' FuIncRef FuThenLd FuThenHeadLd FuThenPush FuThenRecheck FuChainTake FuWaDec FuTscInc FuTscDec '
+                         'PoolEnter PoolReturn FuReadyLd',
+    'walltsin6': COMMON + ' FuIncRef FuThenLd FuThenHeadLd FuThenPush FuThenRecheck FuChainTake FuWaDec FuTscInc FuTscDec '
+                          'PoolEnter PoolReturn FuReadyLd',
     'wany': COMMON + ' GateUp DrRunQ FuIncRef FuThenLd FuThenHeadLd FuThenPush FuThenRecheck FuChainTake FuWyCas FuWyWinnerLd '
                      'FuWyInlineCas FuWyWinnerLd2',
     'wany1': COMMON + ' GateUp DrRunQ FuIncRef FuThenLd FuThenHeadLd FuThenPush FuThenRecheck FuChainTake FuWyCas FuWyWinnerLd '
